@@ -7,6 +7,9 @@ first = later = 0
 for d in sorted(glob.glob('/verif/seeded/*/')):
     name = os.path.basename(d.rstrip('/'))
     m = json.load(open(d + 'meta.json'))
+    if 'out_of_scope' in m:
+        print('| `seeded/%s` | %s | %s | - | not adopted: %s |' % (name, m.get('summary', ''), m.get('needs', ''), m['out_of_scope'][:260]))
+        continue
     if 'history' in m:
         later += 1
         at = 'after extension: ' + m['history'].split(' - then')[0].replace('missed at first: ', '').replace('missed at first (caught by C19 as it stood): ', '')[:170]
